@@ -308,12 +308,22 @@ def main(argv=None):
     known_hits = collections.OrderedDict()
     checks = 0
     samples = []
+    tags = collections.Counter()
+    obs_max = {}
     for r in sorted(results, key=lambda r: r["id"]):
         case = by_id[r["id"]]
         v = r.get("verdict", "inconclusive")
         for k, n in (r.get("mon") or {}).items():
             mon[k] += n
         checks += int(r.get("checks", 0))
+        for t in r.get("tags") or []:
+            tags[t] += 1
+        if v != "inconclusive":
+            for k, val in (r.get("obs") or {}).items():
+                if isinstance(val, (int, float)) and not isinstance(val, bool) \
+                        and val == val:
+                    key = "%s:%s" % (case["gen"].split(":")[0], k)
+                    obs_max[key] = max(obs_max.get(key, val), val)
         if v == "violated":
             key = F.classify(pid, case, r)
             if key is not None and key in known_open:
@@ -378,6 +388,8 @@ def main(argv=None):
             "verdicts": dict(counts),
             "per_generator": {g: dict(c) for g, c in sorted(per_gen.items())},
             "monitor_events": dict(sorted(mon.items())),
+            "case_tags": dict(sorted(tags.items())),
+            "observed_max": {k: obs_max[k] for k in sorted(obs_max)},
             "deciding_monitors": need,
             "deciding_monitors_unreached": missing,
             "inconclusive_reasons": dict(inconc_reasons.most_common(8)),
